@@ -450,6 +450,11 @@ func C20(x *Ctx) []Violation {
 				bad("nothing-else-declared", "unexpected %s declaration", decl.Tok)
 			}
 		case *ast.FuncDecl:
+			// the self-check of a generic mock may be written inside a blank generic function
+			if decl.Recv == nil && decl.Name.Name == "_" && decl.Type.TypeParams != nil {
+				ensure++
+				continue
+			}
 			ok := false
 			for m := range mocks {
 				for _, fd := range mockMethodDecls(d.File, m) {
